@@ -373,3 +373,178 @@ def register_result_item(reg):
 			'is_reportable(result.report_taxon, result.classifier_result.predicted_taxon)',
 		],
 	)
+
+
+# ---- C10: consensus over the forest ---------------------------------------------------------------------------------------
+
+def anc_compose_stmt(t, i, j):
+	return z3.Implies(z3.And(i >= 0, j >= 0), anc(anc(t, i), j) == anc(t, i + j))
+
+
+def forest2_axioms():
+	"""lemma anc-compose (proved by induction in C10/lemma/anc-compose/*), with a trigger"""
+	t = z3.Const('t', TTaxon.sort)
+	i, j = z3.Ints('i j')
+	return z3.ForAll([t, i, j], anc_compose_stmt(t, i, j), patterns=[anc(anc(t, i), j)])
+
+
+S.AXIOMS['forest2'] = forest2_axioms
+NS.setdefault('__qtypes__', {}).update({'x': TTaxon, 'y': TTaxon})
+
+
+def _onl(a, t):
+	return z3.And(a != NONE_T, t != NONE_T, depth(a) <= depth(t), anc(t, depth(t) - depth(a)) == a)
+
+
+def cmp_(pe, a, b):
+	"""a and b lie on one lineage (one is the other or its ancestor)"""
+	a, b = _tx(a), _tx(b)
+	return SBool(z3.Or(_onl(a, b), _onl(b, a)))
+
+
+def below(pe, c, s):
+	"""s is a strict descendant of c"""
+	c, s = _tx(c), _tx(s)
+	return SBool(z3.And(_onl(c, s), c != s))
+
+
+def child_toward(pe, c, s):
+	"""the child of c on the way down to its strict descendant s"""
+	c, s = _tx(c), _tx(s)
+	return SObj(TTaxon, anc(s, depth(s) - depth(c) - 1))
+
+
+def root(pe, t):
+	t = _tx(t)
+	return SObj(TTaxon, anc(t, depth(t)))
+
+
+def is_lin(pe, trunk, c):
+	"""trunk is the lineage of c, bottom to top"""
+	c = _tx(c)
+	j = z3.Int(fresh_name('j'))
+	return SBool(z3.And(c != NONE_T, trunk.length == depth(c) + 1,
+		z3.ForAll([j], z3.Implies(z3.And(0 <= j, j < trunk.length), z3.Select(trunk.arr, j) == anc(c, j)))))
+
+
+def in_seq(pe, x, seq, n=None):
+	x = _tx(x)
+	n = seq.length if n is None else int_term(n)
+	j = z3.Int(fresh_name('j'))
+	return SBool(z3.Exists([j], z3.And(0 <= j, j < n, z3.Select(seq.arr, j) == x)))
+
+
+def all_taxa(pe, seq):
+	j = z3.Int(fresh_name('j'))
+	return SBool(z3.ForAll([j], z3.Implies(z3.And(0 <= j, j < seq.length), z3.Select(seq.arr, j) != NONE_T)))
+
+
+def set_has(pe, s, x):
+	from pyvc.values import EmptySet
+	if isinstance(s, EmptySet):
+		return False
+	return SBool(s.has(x))
+
+
+def in_lineages(pe, x, seq, n=None):
+	"""x lies on the lineage of one of the first n taxa"""
+	x = _tx(x)
+	n = seq.length if n is None else int_term(n)
+	j = z3.Int(fresh_name('j'))
+	return SBool(z3.Exists([j], z3.And(0 <= j, j < n, _onl(x, z3.Select(seq.arr, j)))))
+
+
+def cmp_all(pe, x, seq, n=None):
+	x = _tx(x)
+	n = seq.length if n is None else int_term(n)
+	j = z3.Int(fresh_name('j'))
+	return SBool(z3.ForAll([j], z3.Implies(z3.And(0 <= j, j < n), z3.Or(_onl(x, z3.Select(seq.arr, j)), _onl(z3.Select(seq.arr, j), x)))))
+
+
+for _n, _f in (('cmp', cmp_), ('below', below), ('child_toward', child_toward), ('root', root), ('is_lin', is_lin), ('in_seq', in_seq),
+               ('all_taxa', all_taxa), ('set_has', set_has), ('in_lineages', in_lineages), ('cmp_all', cmp_all)):
+	NS[_n] = _f
+
+
+def register_consensus(reg):
+	C = 'trunk[0]'
+	SEEN = '0 <= j, j <= _i0'
+	reg.contract(CL + 'consensus_taxon',
+		types={'taxa': SeqOf(Taxon)},
+		axioms=['forest', 'forest2'],
+		requires=['all_taxa(taxa)'],
+		ensures=[
+			'implies(len(taxa) == 0, isnone(result[0]))',
+			'implies(len(taxa) == 0, forall(x, not set_has(result[1], x)))',
+			# the consensus is comparable with every matched taxon ...
+			'implies(not isnone(result[0]), cmp_all(result[0], taxa))',
+			# ... lies on the lineage of one of them ...
+			'implies(not isnone(result[0]), in_lineages(result[0], taxa))',
+			# ... and is the deepest such taxon: hence a function of the SET of matched taxa (order independent)
+			'implies(not isnone(result[0]), forall(x, in_lineages(x, taxa) and cmp_all(x, taxa), depth(x) <= depth(result[0])))',
+			# others = the matched taxa strictly below the consensus
+			'implies(not isnone(result[0]), forall(x, set_has(result[1], x) == (in_seq(x, taxa) and below(result[0], x))))',
+			# no consensus only if two matched taxa have different roots; then every matched taxon is "other"
+			'implies(isnone(result[0]) and len(taxa) > 0, exists((p, q), 0 <= p, p < len(taxa), 0 <= q, q < len(taxa), root(taxa[p]) != root(taxa[q])))',
+			'implies(isnone(result[0]) and len(taxa) > 0, forall(x, set_has(result[1], x) == in_seq(x, taxa)))',
+		],
+		loops={
+			0: invariant(
+				'0 <= _i0 <= len(__it0)', 'len(trunk) >= 1', f'is_lin(trunk, {C})',
+				f'forall(j, {SEEN}, cmp({C}, taxa[j]))',
+				f'split or (exists(j, {SEEN}, taxa[j] == {C}) and forall(j, {SEEN}, on_lineage(taxa[j], {C})))',
+				f'not split or exists((p, q), 0 <= p, p <= _i0, 0 <= q, q <= _i0, below({C}, taxa[p]) and below({C}, taxa[q])'
+				f' and child_toward({C}, taxa[p]) != child_toward({C}, taxa[q]))',
+				f'exists(j, {SEEN}, on_lineage({C}, taxa[j]))',
+				types={'trunk': SeqOf(Taxon, ref=True), 'split': Bool},
+				decreases='len(__it0) - _i0'),
+			1: invariant(
+				'0 <= _i1 <= len(__it1)',
+				'forall(j, 0 <= j, j < _i1, not in_seq(__it1[j], trunk))',
+				decreases='len(__it1) - _i1'),
+		},
+	)
+
+
+def match_of(pe, t, d):
+	"""THE taxon matched by a genome of taxon t at distance d (None if no threshold in its lineage covers d)"""
+	t = _tx(t)
+	m = midx(t, real_term(d))
+	return SObj(TTaxon, z3.If(m <= depth(t), anc(t, m), NONE_T))
+
+
+NS['match_of'] = match_of
+NS.setdefault('__qtypes__', {})['t'] = TTaxon
+
+
+class ZipGD(TypeSpec):
+	"""zip_strict(ref_genomes, dists): pairs (genome, distance)"""
+
+	def make(self, name, st, eng):
+		from pyvc.interp import SZip
+		gs = SeqOf(Genome).make('ref_genomes', st, eng)
+		ds = SeqOf(Real).make('dists', st, eng)
+		st.assume(gs.length == ds.length)
+		st.env['__genomes'] = gs
+		st.env['__dists'] = ds
+		return SZip([gs, ds], gs.length)
+
+
+def register_find_matches(reg):
+	G, D = '__genomes', '__dists'
+	MT = f'match_of({G}[{{i}}].taxon, {D}[{{i}}])'
+
+	def clauses(n):
+		return [
+			f'forall(t, has_key(matches, t), not isnone(t) and len(matches[t]) >= 1)',
+			f'forall((t, j), has_key(matches, t), 0 <= j, j < len(matches[t]), 0 <= matches[t][j] and matches[t][j] < {n} and ' + MT.format(i='matches[t][j]') + ' == t)',
+			f'forall((t, p, q), has_key(matches, t), 0 <= p, p < q, q < len(matches[t]), matches[t][p] < matches[t][q])',
+			f'forall(i, 0 <= i, i < {n}, isnone(' + MT.format(i='i') + ') or (has_key(matches, ' + MT.format(i='i') + ') and exists(j, 0 <= j and j < len(matches[' + MT.format(i='i') + ']) and matches[' + MT.format(i='i') + '][j] == i)))',
+		]
+	reg.contract(CL + 'find_matches',
+		types={'itr': ZipGD()},
+		axioms=['forest', 'midx'],
+		requires=[f'all_have_taxon({G})'],
+		ensures=[c.replace('matches', 'result') for c in clauses(f'len({G})')],
+		loops={0: invariant(*(['0 <= _i0 <= len(__it0)'] + clauses('_i0')), types={'matches': DictOf(Taxon, SeqOf(Int))}, decreases='len(__it0) - _i0')},
+	)
